@@ -257,8 +257,10 @@ def rule_G5(ctx: Ctx) -> None:
     if len(comps) != 1:
         ctx.unknown(f, {"filtering_comprehensions": len(comps)}, "one filtering comprehension")
     else:
-        c = comps[0]
+        c = X.fuse_zip(comps[0], f.node)
         g = c.generators[0]
+        if not isinstance(g.target, ast.Name):
+            raise AnalysisError(f"{f.qualname}: filtering comprehension with an unfamiliar target `{X.U(g.target)}`")
         v = g.target.id
         cut = "?"
         if isinstance(g.ifs[0], ast.Compare) and len(g.ifs[0].ops) == 1:
@@ -275,8 +277,12 @@ def rule_G5(ctx: Ctx) -> None:
         lens_ok = None
         if cut_ok:
             src = cutdef[0].args[0].args[0]
-            defs = X.assignments_to(f.node, src.id) if isinstance(src, ast.Name) else [src]
-            lens_ok = len(defs) == 1 and "solution" in X.U(defs[0]) and ("len(" in X.U(defs[0]) or "shape[0]" in X.U(defs[0]))
+            defs = [X.expand_locals(src, f.node)]
+            img = defs[0]
+            while isinstance(img, ast.Call) and dotted_of(img.func) in ("np.array", "numpy.array", "list", "np.asarray") and len(img.args) == 1:
+                img = img.args[0]
+            ew = X.elementwise(img)
+            lens_ok = ew is not None and X.same_expr(ew[0], "len(_x.solution)") and X.U(ew[1]) in (dsn, f"{dsn}.mazes")
             slot["lengths"] = X.U(defs[0])[:100] if defs else None
         full = ok if ok is not True else (True if (it_ok and cut_ok and lens_ok) else (False if it_ok and cut_ok and lens_ok is False else None))
         ctx.judge(f, full, slot, "keep iff len(solution) > int(np.percentile(lengths, percentile)), over all mazes in order",
